@@ -8,7 +8,7 @@
    IDAT CONTENT (C02_idat_content_partial): the data of the candidate that optimize_raw emits is the compressor's answer for
    a stream which the specification's un-filtering cuts into exactly the rows the (output) header implies - hence it has exactly
    the size the header implies - each starting with a filter type 0..4, and which un-filters to the candidate's image data, whose
-   meaning (palette indices inside the palette included) is the input's (C01). Given under the record `leaves` of C01 and for
+   meaning (palette indices inside the palette included) is the input's (C01). Given for
    runs without alpha rewriting; that inflate undoes the compressor is the zlib oracle assumption, re-validated on every run.
    PARTIAL: the input-relative ordering constraints of ancillary chunks are decided per run by the strict validator oracle.
    (Finding F8 - hIST kept without PLTE - was repaired by fix 2fc6ac2; the validator reports it if it ever returns.) *)
@@ -46,7 +46,7 @@ Theorem C02_parse_serialize : forall cs, Forall chunk_wf cs -> Forall not_iend c
 Proof. exact parse_serialize. Qed.
 Print Assumptions C02_parse_serialize.
 
-Theorem C02_idat_content_partial : forall (L : leaves) e o img max_size c pic,
+Theorem C02_idat_content_partial : forall e o img max_size c pic,
   optimize_alpha o = false -> scale_16 o = false -> means pic img ->
   optimize_raw e o img max_size = Ok (Some c) ->
   exists d stream, c_cdata c = z_deflate e d stream /\
